@@ -98,6 +98,19 @@ def generate(rng, tier, cls):
                 cfgs.append([pad, rng.choice([96, 96, 1, 64, 4096]), 'sim',
                              None, 0])
 
+        # a header several blocks long that starts well before a page-sized
+        # boundary and ends after it: pad section k until its own end lies
+        # beyond the boundary
+        for _ in range(4):
+            k = rng.below(len(spans))
+            hs, he, ce = spans[k]
+            B2 = rng.choice([4096, 8192, 8192, 16384, 65536])
+
+            if hs < B2 - 200:
+                cfgs.append([B2 - he + rng.randint(-3, 400),
+                             rng.choice([96, 96, 16, 64, 97, 1000]),
+                             rng.choice(['sim', 'sim', 'bytesio']), None, k])
+
     if rng.chance(0.3):
         # very long headers together with blocks beyond the usual buffer
         # sizes
